@@ -60,7 +60,7 @@ def run(ctx):
     seen = set()
     # (size, stream length, reads-with-error allowed): the error-carrying reads double the behaviours, so they get one byte less
     plan = [(sz, 6, 0) for sz in (1, 2, 3, 4)] + [(sz, 5, 1) for sz in (1, 2, 3, 4)] if ctx.thorough else \
-           [(sz, 5, 0) for sz in (1, 2)] + [(sz, 4, 0) for sz in (3, 4)] + [(sz, 4, 1) for sz in (1, 2, 3)]
+           [(1, 5, 0)] + [(sz, 4, 0) for sz in (2, 3, 4)] + [(sz, 4, 1) for sz in (1, 2)]
     for size, elen, errs in plan:
         r = vlib.tlc(ctx, "LineReader", _cfg(size, elen, True, False, errs=errs),
                      label="LineReader-emit-size%d-len%d-err%d" % (size, elen, errs), timeout=1500)
@@ -77,7 +77,7 @@ def run(ctx):
                      label="LineReader-view-size%d" % size, timeout=1500)
     # long random streams
     nsim = 3000 if ctx.thorough else 300
-    for size in (2, 3, 5):
+    for size in (2, 3, 4):
         r = vlib.tlc(ctx, "LineReader", _cfg(size, 120, True, False, zeros=3), simulate=nsim, depth=400,
                      label="LineReader-sim-size%d" % size, seed=ctx.seed * 7 + size, timeout=900)
         for c in r.cases:
